@@ -229,10 +229,13 @@ LINT_RE = re.compile(r'\b(Admitted|admit|Axiom|Parameter|Conjecture|Unset\s+Guar
 def lint():
     """Refuse axioms / admits anywhere in the development. Returns list of offending lines."""
     bad = []
+    project = set(open(os.path.join(COQ, '_CoqProject')).read().split())
     for d in ('theories', 'props', 'extract', 'gen'):
         for f in sorted(os.listdir(os.path.join(COQ, d))):
             if not f.endswith('.v'):
                 continue
+            if d != 'extract' and ('%s/%s' % (d, f)) not in project:
+                continue        # not part of the development (e.g. a file still being written)
             text = open(os.path.join(COQ, d, f)).read()
             text = re.sub(r'\(\*.*?\*\)', '', text, flags=re.S)
             depth = 0
